@@ -89,6 +89,8 @@ type payloadIn struct {
 	TargetType      string        `json:"targetType,omitempty"`
 	TargetAccount   *string       `json:"targetAccount,omitempty"`
 	TargetTx        *string       `json:"targetTx,omitempty"`
+	// dynamic type of a decoded target id that is neither string nor uint64
+	TargetOther     string        `json:"targetOther,omitempty"`
 	Metadata        *[][2]string  `json:"metadata,omitempty"`
 	Key             string        `json:"key,omitempty"`
 	// insertedSchema: the schema as JSON source (hex) from which the real
@@ -344,7 +346,6 @@ func setTarget(out *payloadIn, id any) {
 		s := fmt.Sprintf("%d", t)
 		out.TargetTx = &s
 	default:
-		s := fmt.Sprintf("unexpected:%T", id)
-		out.TargetAccount = &s
+		out.TargetOther = fmt.Sprintf("%T", id)
 	}
 }
